@@ -2,33 +2,34 @@ package main
 
 import (
 	"fmt"
-	"strings"
 
 	"github.com/gopacket/gopacket"
-	"verif/harness/corpus"
+	"github.com/gopacket/gopacket/layers"
 	"verif/harness/vh"
 )
 
 func main() {
-	n, pan := 0, map[string]int{}
-	for _, f := range corpus.Load() {
-		if !strings.Contains(strings.ToLower(f.Name), "lldp") && !strings.Contains(f.Name, "LinkLayerDiscovery") {
-			continue
-		}
-		for p := 0; p < len(f.Data); p++ {
-			for _, v := range []byte{0, 1, 2, 248, 249, 250, 255} {
-				d := append([]byte(nil), f.Data...)
-				d[p] = v
-				n++
-				_, site, pn := vh.Guard(func() {
-					pk := gopacket.NewPacket(d, f.First, gopacket.DecodeOptions{SkipDecodeRecovery: true})
-					pk.Layers()
-				})
-				if pn {
-					pan[vh.SiteSig(corpus.Repo(), site)]++
-				}
-			}
+	for _, lt := range []gopacket.LayerType{layers.LayerTypeTCP, layers.LayerTypeUDP, layers.LayerTypeSCTP, layers.LayerTypeUDPLite, layers.LayerTypeRUDP} {
+		p := gopacket.NewPacket([]byte{1, 2, 3}, lt, gopacket.Default)
+		tl := p.TransportLayer()
+		fmt.Println(lt, "layers", len(p.Layers()), "transport nil:", tl == nil, "err:", p.ErrorLayer() != nil)
+		if tl != nil {
+			msg, site, pn := vh.Guard(func() { _ = tl.TransportFlow().String() })
+			fmt.Println("  flow.String panic:", pn, msg, site)
+			msg, site, pn = vh.Guard(func() { a, b := tl.TransportFlow().Endpoints(); _ = a.String(); _ = b.String(); _ = tl.TransportFlow().FastHash() })
+			fmt.Println("  endpoints panic:", pn, msg)
 		}
 	}
-	fmt.Println(n, pan)
+	// network layers
+	for _, lt := range []gopacket.LayerType{layers.LayerTypeIPv4, layers.LayerTypeIPv6, layers.LayerTypeEthernet, layers.LayerTypeLinuxSLL} {
+		p := gopacket.NewPacket([]byte{1, 2, 3}, lt, gopacket.Default)
+		if nl := p.NetworkLayer(); nl != nil {
+			msg, _, pn := vh.Guard(func() { _ = nl.NetworkFlow().String() })
+			fmt.Println(lt, "netflow.String panic:", pn, msg)
+		}
+		if ll := p.LinkLayer(); ll != nil {
+			msg, _, pn := vh.Guard(func() { _ = ll.LinkFlow().String() })
+			fmt.Println(lt, "linkflow.String panic:", pn, msg)
+		}
+	}
 }
